@@ -154,6 +154,11 @@ def shard(acc, tier, idx, n):
             continue
         files = {'main.asm': wrap(st)}
         run_program(acc, params, isa, files, clause='fill', nontrivial=st, sample=True)
+        # the same directive as the very first line of the program (cursor at address 0, and at a non-zero default origin)
+        files0 = {'main.asm': [('const', 'BK', 7), st, ('label', 'L'), ('data', 1, [0xEE])]}
+        run_program(acc, params, isa, files0, clause='fill', nontrivial=('at0', st), sample=False)
+        p5 = R.Params(address_size=16, endian='little', origin=5)
+        run_program(acc, p5, probe_isa(16, 'little', origin=5), files0, clause='fill', nontrivial=('at5', st), sample=False)
 
 
 def run_c11(acc, params, isa, files, clause, nontrivial, text, ctr):
